@@ -11,7 +11,7 @@ TECHNIQUE = "model-based generation of view-expression histories (subset/combine
 RULE = (
     "screens of arity 1..3 with 1..12 rows (duplicates frequent), any plate-atomic mask; a history of 3..12 operations, each building a new view "
     "from earlier ones (operands chosen by drawn indices): subset with empty/full/overlapping masks, subset of subset, combine, concat, invert, "
-    "get_plate, observed/unobserved split, to_screen, unique-condition filter, and in-place reveals of the parent (set_observed) between them; a second screen for the cross-parent refusal; random int columns for "
+    "get_plate, observed/unobserved split, to_screen, unique-condition filter, and in-place changes of the parent between them (set_observed on a plate or on arbitrary unobserved rows, Plate.merge of plates of equal or different observation status, so plates may be partly observed); a second screen for the cross-parent refusal; random int columns for "
     "select_unique_zipped_numpy_arrays vs a dict reference. Non-trivial = history contains a nested subset and a union and has depth>=3. distinct = distinct case JSON."
 )
 ASSUMPTIONS = [
@@ -166,6 +166,8 @@ def check_case(case):
             if not un:
                 continue
             rows_ = np.asarray(screen.plate_ids) == un[op["a"] % len(un)]
+            if op["b"] % 3 == 0 and (bits & ~mask).any():
+                rows_ = bits & ~mask  # a reveal of arbitrary unobserved rows: plates may end up partly observed
             vals_ = np.linspace(0.1, 0.9, int(rows_.sum()))
             screen.set_observed(rows_, vals_)
             mask = mask | rows_
@@ -186,8 +188,10 @@ def check_case(case):
             if len(pids) < 2:
                 continue
             pa, pb = pids[op["a"] % len(pids)], pids[op["b"] % len(pids)]
-            if pa == pb or bool(mask[np.asarray(screen.plate_ids) == pa][0]) != bool(mask[np.asarray(screen.plate_ids) == pb][0]):
-                continue  # only plates of equal observation status (a merged plate stays uniformly observed)
+            if pa == pb:
+                continue
+            if not op["more"] and bool(mask[np.asarray(screen.plate_ids) == pa][0]) != bool(mask[np.asarray(screen.plate_ids) == pb][0]):
+                continue  # mostly plates of equal observation status; otherwise the merged plate is partly observed
             screen.get_plate(pa).merge(screen.get_plate(pb))
             frozen["plate_ids"] = np.array(screen.plate_ids, copy=True)
             for ov, oidx, _, okind in views:
@@ -203,7 +207,14 @@ def check_case(case):
             continue
         elif kind == "to_screen":
             pv, pidx, pd, _ = pick(op["a"])
-            m = pv.to_screen()
+            pl_, mk_ = np.asarray(screen.plate_ids)[np.array(pidx, dtype=int)], mask[np.array(pidx, dtype=int)]
+            partly = any(len(set(mk_[pl_ == q].tolist())) > 1 for q in set(pl_.tolist()))
+            try:
+                m = pv.to_screen()
+            except ValueError:
+                # a screen with a partly observed plate cannot be constructed: materialising such rows is refused cleanly
+                require(partly, "to_screen.refused", "materialising a view whose plates are each uniformly observed or unobserved was refused")
+                continue
             require(m.size == len(pidx), "to_screen.size", lambda: "materialised screen has %d rows, view has %d" % (m.size, len(pidx)))
             for a in ("sample_names", "treatment_names", "treatment_doses", "observations", "observation_mask", "plate_names"):
                 exp = np.asarray(getattr(screen, a))[np.array(pidx, dtype=int)]
